@@ -226,6 +226,14 @@ Fixpoint zero_size (t : ty) : bool :=
   | _ => false
   end.
 
+(* arrays without elements ([0]T, [n][0]T, ...): the element loop of such a type has no iteration *)
+Fixpoint empty_array (t : ty) : bool :=
+  match t with
+  | TN _ _ u => empty_array u
+  | TAr n et => (Nat.eqb n 0 || empty_array et)%bool
+  | _ => false
+  end.
+
 Definition slice_elems (v : val) : option (list val) :=
   match v with VNilS => Some [] | VSl _ es _ => Some es | _ => None end.
 
@@ -254,11 +262,18 @@ Definition deepcopy_top (e : tenv) (t : ty) (dst src : val) (n : N) : res (val *
           match slice_elems src, dst with
           | Some ses, VNilS =>
               if can_copy et then Ok (VNilS, n)            (* copy(nil, src) copies nothing *)
-              else match ses with [] => Ok (VNilS, n) | _ => Pan end
+              else match ses with
+                   | [] => Ok (VNilS, n)
+                   | _ => if empty_array et then Stuck else Pan     (* dst[i]: index out of range *)
+                   end
           | Some ses, VSl ld des dsp =>
               if can_copy et then
                 let m := Nat.min (length ses) (length des) in
                 Ok (VSl ld (firstn m ses ++ skipn m des) dsp, n)
+              else if (empty_array et && (length des <? length ses))%bool then
+                (* a shorter destination makes dst[i] panic when it is evaluated; for elements
+                   that are arrays without elements it never is: not modelled *)
+                Stuck
               else
                 rdo r1 <- copy_elems (fun a q m => dcf e' et a q m) ses (map Some des) n;
                 Ok (VSl ld (fst r1 ++ skipn (length ses) des) dsp, snd r1)
